@@ -61,6 +61,10 @@ func genC17(t *rapid.T) C17Scenario {
 	}
 	if rapid.Bool().Draw(t, "deleter") {
 		s.DeleteK = min(rapid.SampledFrom([]int{1, 1, 1, 2, 5}).Draw(t, "deletek"), s.Prefill-1)
+		if rapid.IntRange(0, 5).Draw(t, "delete_to_head") == 0 {
+			// everything that is there when the deleter is started: DeleteRange(Tail, Head+1) racing the appends
+			s.DeleteK = s.Prefill
+		}
 	}
 	s.Tape = rapid.SliceOfN(rapid.IntRange(0, 19), 0, 300).Draw(t, "tape")
 	s.DSYield = rapid.IntRange(0, 2).Draw(t, "dsyield") > 0
@@ -158,7 +162,15 @@ func runC17(t *testing.T, s C17Scenario) (res Result) {
 			mu.Unlock()
 		}
 		var wg sync.WaitGroup
-		total := int32(len(s.Writers) + s.Readers)
+		// a deletion that reaches the head at the time of the call may empty the store: Head and Height drop by
+		// design and a reader's Head() may be deleted under it, so such scenarios run without readers and are
+		// judged on retrievability of what was appended and on the final state
+		wipes := s.DeleteK >= s.Prefill
+		nReaders := s.Readers
+		if wipes {
+			nReaders = 0
+		}
+		total := int32(len(s.Writers) + nReaders)
 		if s.DeleteK > 0 {
 			total++
 		}
@@ -206,7 +218,7 @@ func runC17(t *testing.T, s C17Scenario) (res Result) {
 				}
 			})
 		}
-		for r := 0; r < s.Readers; r++ {
+		for r := 0; r < nReaders; r++ {
 			r := r
 			spawn(func() {
 				var lastHead, lastHeight uint64
@@ -257,6 +269,9 @@ func runC17(t *testing.T, s C17Scenario) (res Result) {
 			// loads): in the global serial order neither may ever decrease
 			var stepHead, stepHeight uint64
 			sc.OnStep = func(step int) {
+				if wipes {
+					return
+				}
 				if hd, err := e.st.Head(ctx); err == nil {
 					if hd.H < stepHead {
 						problem("at scheduler step %d Head().Height() went back from %d to %d", step, stepHead, hd.H)
@@ -278,11 +293,48 @@ func runC17(t *testing.T, s C17Scenario) (res Result) {
 			}
 		}
 		wg.Wait()
-		if err := e.st.Sync(ctx); err != nil {
+		fillTrace := func() {
+			if sc != nil {
+				for _, st := range sc.Trace {
+					res.TraceK = append(res.TraceK, st.K)
+					res.TraceN = append(res.TraceN, len(st.Others)+1)
+				}
+			}
+		}
+		// did the deletion take the whole-store path (it removes the head pointer key)?
+		wipeTaken := false
+		for _, en := range e.mem.Log() {
+			for _, op := range en.Ops {
+				if op.Del && op.Key == storePrefix+"/head" {
+					wipeTaken = true
+				}
+			}
+		}
+		panicked := func() bool {
+			ps := takeStorePanics()
+			if len(ps) == 0 {
+				return false
+			}
+			if wipes && wipeTaken {
+				res.Known = "C17/wipe-races-flush"
+			}
+			fillTrace()
+			res.label("flush_loop_panicked")
+			res.failf("the store's flush loop panicked: %s", ps[0])
+			return true
+		}
+		if panicked() {
+			return
+		}
+		err := e.st.Sync(ctx)
+		synctest.Wait()
+		if panicked() {
+			return
+		}
+		if err != nil {
 			res.failf("final Sync: %v", err)
 			return
 		}
-		synctest.Wait()
 
 		// global order (engine A): Head and Height never decrease across all readers
 		if !s.Real {
@@ -313,20 +365,28 @@ func runC17(t *testing.T, s C17Scenario) (res Result) {
 				e.m.appendBatch(hh)
 			}
 		}
-		if s.DeleteK > 0 {
+		if s.DeleteK > 0 && !wipes {
 			e.m.deleteRange(1, 1+uint64(s.DeleteK))
 		}
 		if len(problems) == 0 {
-			if v := e.checkStore("after all writers finished"); v != "" {
+			if wipes {
+				// the outcome depends on whether the first append came before or after the deletion; in every
+				// serial order the chain is gap-free, nothing at or below the deleted heights is left, and
+				// every appended header is stored
+				if v := c17CheckAfterDeleteToHead(e, s, base); v != "" {
+					problems = append(problems, v)
+				}
+			} else if v := e.checkStore("after all writers finished"); v != "" {
 				problems = append(problems, v)
 			}
 		}
-		if sc != nil {
-			for _, st := range sc.Trace {
-				res.TraceK = append(res.TraceK, st.K)
-				res.TraceN = append(res.TraceN, len(st.Others)+1)
-			}
+		if len(problems) > 0 && wipes && wipeTaken {
+			res.Known = "C17/wipe-races-flush"
 		}
+		if wipes {
+			res.label("delete_reaches_head", fmt.Sprintf("wipe_path_taken=%v", wipeTaken))
+		}
+		fillTrace()
 		// non-triviality from the trace
 		overlap := false
 		if sc != nil {
@@ -372,6 +432,59 @@ func runC17(t *testing.T, s C17Scenario) (res Result) {
 		}
 	})
 	return res
+}
+
+// c17CheckAfterDeleteToHead judges the final store of a scenario whose deletion reached the head.
+func c17CheckAfterDeleteToHead(e *storeEnv, s C17Scenario, base uint64) string {
+	ctx, cancel := vctx(time.Hour)
+	defer cancel()
+	head, herr := e.st.Head(ctx)
+	tail, terr := e.st.Tail(ctx)
+	if herr != nil || terr != nil {
+		return fmt.Sprintf("after all writers finished: Head=(%v,%v) Tail=(%v,%v) although headers were appended after/while the store was emptied", head, herr, tail, terr)
+	}
+	if !e.chain.IsCanonical(head) || !e.chain.IsCanonical(tail) || tail.H > head.H || tail.H < base {
+		return fmt.Sprintf("after all writers finished: Head=%v Tail=%v (deleted up to %d)", head, tail, base-1)
+	}
+	if e.st.Height() != head.H {
+		return fmt.Sprintf("after all writers finished: Height()=%d, Head().Height()=%d", e.st.Height(), head.H)
+	}
+	for h := tail.H; h <= head.H; h++ {
+		g, err := e.st.GetByHeight(ctx, h)
+		if err != nil || !vh.Equal(g, e.chain.At(h)) {
+			return fmt.Sprintf("after all writers finished: height %d inside [Tail %d, Head %d] is not retrievable: (%v, %v)", h, tail.H, head.H, g, err)
+		}
+		if g2, err := e.st.Get(ctx, g.Hash()); err != nil || !vh.Equal(g2, g) {
+			return fmt.Sprintf("after all writers finished: header %d is not retrievable by hash: %v", h, err)
+		}
+	}
+	for h := uint64(1); h < base; h++ {
+		if g, err := e.st.Get(ctx, e.chain.At(h).Hash()); err == nil {
+			return fmt.Sprintf("after all writers finished: deleted header %v is still retrievable by hash", g)
+		}
+	}
+	appended := map[uint64]bool{}
+	for _, w := range s.Writers {
+		for _, c := range w {
+			for h := base + uint64(c.Off); h < base+uint64(c.Off)+uint64(c.N); h++ {
+				appended[h] = true
+			}
+		}
+	}
+	for h := range appended {
+		if g, err := e.st.Get(ctx, e.chain.At(h).Hash()); err != nil || !vh.Equal(g, e.chain.At(h)) {
+			return fmt.Sprintf("after all writers finished: appended header %d is not stored: %v", h, err)
+		}
+	}
+	// appended heights contiguous from the first one above the deleted prefix: the head is the last of them
+	top := base
+	for appended[top] {
+		top++
+	}
+	if appended[base] && len(appended) == int(top-base) && (head.H != top-1 || tail.H != base) {
+		return fmt.Sprintf("after all writers finished: the appended heights %d..%d are contiguous but Tail=%d Head=%d", base, top-1, tail.H, head.H)
+	}
+	return ""
 }
 
 func TestC17(t *testing.T)       { check(t, "C17", genC17, runC17) }
@@ -441,6 +554,8 @@ func enumerateSchedules(exec func(tape []int) (ks, ns []int, stop bool), maxRuns
 //	2: store [1,2]; batch 4; one writer Append(3,4); one reader (1 round of Head, Height, GetByHeight); DeleteRange(1,2)
 //	3: store [1,2,3]; batch 2; one writer Append(4,5) + Sync + read-back; DeleteRange(1,3)
 //	4: store [1,2]; batch 4; writers Append(3), Append(3..4) (overlap); no deleter; one reader (1 round)
+//	5: as 0 but DeleteRange(1,3): the deletion reaches the head of the time of the call (whole-store path or, when
+//	   header 3 has arrived, tail-side path)
 var c17EnumConfigs = []C17Scenario{
 	{Cfg: StoreCfg{Batch: 4, StoreCache: 8, IndexCache: 8}, Prefill: 2,
 		Writers: [][]C12Chunk{{{Off: 0, N: 1}}, {{Off: 1, N: 1}}}, SyncAfter: []bool{false, false}, DeleteK: 1},
@@ -452,6 +567,8 @@ var c17EnumConfigs = []C17Scenario{
 		Writers: [][]C12Chunk{{{Off: 0, N: 2}}}, SyncAfter: []bool{true}, DeleteK: 2},
 	{Cfg: StoreCfg{Batch: 4, StoreCache: 8, IndexCache: 8}, Prefill: 2,
 		Writers: [][]C12Chunk{{{Off: 0, N: 1}}, {{Off: 0, N: 2}}}, SyncAfter: []bool{false, false}, Readers: 1, ReadSteps: 1},
+	{Cfg: StoreCfg{Batch: 4, StoreCache: 8, IndexCache: 8}, Prefill: 2,
+		Writers: [][]C12Chunk{{{Off: 0, N: 1}}, {{Off: 1, N: 1}}}, SyncAfter: []bool{false, false}, DeleteK: 2},
 }
 
 // runEnum enumerates every schedule of each configuration (stateless DFS, sharded by the first choices).
@@ -476,12 +593,18 @@ func runEnum[S any](t *testing.T, prop string, configs []S, withTape func(S, []i
 			continue
 		}
 		var longest int
+		knownVerdicts := map[string]int{}
 		runs, exhausted, nondet := enumerateSchedules(func(tape []int) ([]int, []int, bool) {
 			s := withTape(configs[cfg], tape)
 			res := run(t, s)
-			col.Case(s, res.NonTrivial, nil, "enumerated_schedule")
+			col.Case(s, res.NonTrivial, nil, append([]string{"enumerated_schedule"}, res.Labels...)...)
 			if len(res.TraceK) > longest {
 				longest = len(res.TraceK)
+			}
+			if res.Verdict != "" && res.Known != "" && knownOpen(prop, res.Known) {
+				col.Known(res.Known)
+				knownVerdicts[res.Verdict]++
+				return res.TraceK, res.TraceN, false
 			}
 			if res.Verdict != "" {
 				p := evidWriteReplay(prop, s, res.Verdict)
@@ -498,6 +621,9 @@ func runEnum[S any](t *testing.T, prop string, configs []S, withTape func(S, []i
 			col.AddExtra(fmt.Sprintf("enum_cfg%d_nondeterministic", cfg), 1)
 		}
 		t.Logf("%s enumeration cfg %d: %d schedules, exhausted=%v, nondeterministic=%v, longest=%d steps", prop, cfg, runs, exhausted, nondet, longest)
+		for v, n := range knownVerdicts {
+			t.Logf("  known finding, %d schedules: %s", n, v)
+		}
 	}
 }
 
@@ -505,5 +631,5 @@ func TestC17Enum(t *testing.T) {
 	runEnum(t, "C17", c17EnumConfigs, func(s C17Scenario, tape []int) C17Scenario {
 		s.Tape, s.DSYield, s.DSReadsOnly, s.Canonical = tape, true, true, true
 		return s
-	}, runC17, map[int]bool{0: true, 4: true})
+	}, runC17, map[int]bool{0: true, 4: true, 5: true})
 }
